@@ -18,7 +18,13 @@ class FakeClock:
         self._now = _dt.datetime(2020, 1, 1)
         self.datetime = self
 
-    def now(self):
+    timezone = _dt.timezone
+
+    def now(self, tz=None):
+        # the process' zone is 8 hours west of UTC: an aware "now" is 8 hours ahead of the naive local one
+        if tz is not None:
+            import datetime as _d
+            return (self._now + _d.timedelta(hours=8)).replace(tzinfo=tz)
         return self._now
 
     def advance(self, seconds):
